@@ -424,10 +424,15 @@ impl Sut {
         matches!(self, Sut::Engine(_))
     }
     pub fn check(&self, rq: &Request) -> NetAns {
-        match self {
-            Sut::Engine(e) => NetAns::of(&e.check_network_request(rq)),
-            Sut::Blocker(b, res) => NetAns::of(&b.check(rq, res)),
+        let r = match self {
+            Sut::Engine(e) => e.check_network_request(rq),
+            Sut::Blocker(b, res) => b.check(rq, res),
+        };
+        // reach probe: in debug mode a fused rule names all its members
+        if r.filter.as_deref().map(|f| f.contains(" <+> ")).unwrap_or(false) || r.exception.as_deref().map(|f| f.contains(" <+> ")).unwrap_or(false) {
+            FUSED_MATCHES.with(|c| c.set(c.get() + 1));
         }
+        NetAns::of(&r)
     }
     pub fn check_subset(&self, rq: &Request, m: bool, f: bool) -> NetAns {
         match self {
@@ -622,6 +627,9 @@ pub struct Outcome {
 }
 
 thread_local! {
+    pub static FUSED_MATCHES: std::cell::Cell<u64> = const { std::cell::Cell::new(0) };
+}
+thread_local! {
     static LAST_PANIC: std::cell::RefCell<String> = const { std::cell::RefCell::new(String::new()) };
 }
 
@@ -749,6 +757,7 @@ impl<'a> Exec<'a> {
     pub fn run(&self, ops: &[Op]) -> Outcome {
         let w = self.w;
         vh::reset();
+        FUSED_MATCHES.with(|c| c.set(0));
         let mut stats = RunStats::default();
         let mut dg = Digest::new();
         let mut violation: Option<Violation> = None;
@@ -1220,6 +1229,7 @@ impl<'a> Exec<'a> {
         for i in 0..8 {
             stats.probes[i] = p[i].saturating_sub(oracle_probe_noise[i]);
         }
+        stats.fused_match = FUSED_MATCHES.with(|c| c.get());
         stats.states = state_set.into_iter().collect();
         Outcome { violation, stats, digest: dg.0 }
     }
@@ -1247,6 +1257,7 @@ pub fn kitchen_sink_world() -> World {
         perms: true,
         tag_on_modifiers: false,
         extra: 8,
+        tiny_patterns: true,
     };
     let mut w = gen_world(0x5157_a7e5, &p);
     for k in 1..12u64 {
